@@ -231,10 +231,16 @@ func c02Cfgs(maxDev int) []Cfg {
 					out = append(out, cfg)
 					cfg.EscEncFirst = true
 					out = append(out, cfg)
+					cfg.Toggle = true // ... and with the no-argument forms of every boolean setter
+					out = append(out, cfg)
 					continue
 				}
 				cfg.EscEnc = true
 				out = append(out, cfg)
+				if dev <= 1 {
+					cfg.Toggle = true // the same configuration reached through the no-argument setter forms
+					out = append(out, cfg)
+				}
 			}
 		}
 	}
@@ -243,7 +249,7 @@ func c02Cfgs(maxDev int) []Cfg {
 
 func c02Run(c *Ctx) {
 	mustBeDefault(c)
-	c.S.Rule = "cases = (document, configuration, encoder): documents are all element trees with <= N elements (names over {a,b}) with <= 1 decoration (attribute / text at every position / renamed element; values with all five XML special characters, blanks, tab/newline, non-ASCII, number and boolean look-alikes, an already-escaped sequence, ]]>) under all 512 symmetric configurations (attribute prefix {-,@} x key prefix {#,_} x lower x snake x simple-as-map x keep-spaces x escaping {encoder-side, decoder-side, both requested in either call order} x cast), and with 2 decorations under configurations with <= 2 option deviations; encoders Xml and XmlIndent with (prefix,indent) in {(\"\",\"  \"),(\"\",\"\\t\"),(\" \",\" \")}. Oracle: re-encoded text well formed (single root), decode(encode(m1)) == m1, and the reference decode of the re-encoded text's parse equals m1. Ascending and descending map order; E-choice bound 1 over map order on the small documents. non-trivial = round trip executed."
+	c.S.Rule = "cases = (document, configuration, encoder): documents are all element trees with <= N elements (names over {a,b}) with <= 1 decoration (attribute / text at every position / renamed element; values with all five XML special characters, blanks, tab/newline, non-ASCII, number and boolean look-alikes, an already-escaped sequence, ]]>) under all 512 symmetric configurations (attribute prefix {-,@} x key prefix {#,_} x lower x snake x simple-as-map x keep-spaces x escaping {encoder-side, decoder-side, both requested in either call order, both requested through the no-argument setter forms} x cast; configurations with <= 1 deviation also reached through the no-argument (toggle) setter forms), and with 2 decorations under configurations with <= 2 option deviations; encoders Xml and XmlIndent with (prefix,indent) in {(\"\",\"  \"),(\"\",\"\\t\"),(\" \",\" \")}. Oracle: re-encoded text well formed (single root), decode(encode(m1)) == m1, and the reference decode of the re-encoded text's parse equals m1. Ascending and descending map order; E-choice bound 1 over map order on the small documents. non-trivial = round trip executed."
 	c.S.Assumptions = []string{"element names do not begin with the attribute prefix; attribute prefixes non-empty (as the property states)", "integer casting and tag sequence numbers excluded (documented as asymmetric)"}
 	maxA, maxB, ech := 4, 3, 2
 	if c.Thorough {
